@@ -192,6 +192,28 @@ class Ctx:
         self.result = result
         self.state = state
         self.mod = ex.mod
+        self.touched = set()
+        self.own = False     # True while the contract is evaluated for the function being verified (entry and exit), False at a call site
+
+    # the ghost store and the call log belong to the function being verified; a callee's clause that reads them at a call site would
+    # read the CALLER's history, so reads are recorded and _apply_contract refuses such a clause (see there)
+    @property
+    def log(self):
+        self.touched.add('log')
+        return self._log
+
+    @log.setter
+    def log(self, v):
+        self._log = v
+
+    @property
+    def ghost(self):
+        self.touched.add('ghost')
+        return self._ghost
+
+    @ghost.setter
+    def ghost(self, v):
+        self._ghost = v
 
     def arg(self, name_or_idx):
         if isinstance(name_or_idx, int):
@@ -1053,6 +1075,10 @@ class Contract:
         self.assigns = assigns       # None => writes nothing outside its own frame
         self.loops = loops or {}
         self.transparent = transparent
+        # a contract whose postcondition speaks about the ghost output stream of ITS OWN call cannot be applied at a call site (the
+        # caller's stream would be read instead): such callees are executed in place inside their callers
+        self.inline_in_callers = False
+        self.call_site_reads = ()    # of 'log' / 'ghost': what the postcondition may legitimately read of the CALLER's state at a call site
         self.pure = pure
         self.extern = extern
         self.props = tuple(props)
@@ -1273,6 +1299,7 @@ class Executor(Engine):
         r = s.check()
         self.covers.append((contract.name, 'requires-satisfiable', str(r)))
         self.paths_top = 0
+        self.finished_pcs = []
         self._push_frame(st, fn, args, None, None)
         work = [st]
         while work:
@@ -1284,6 +1311,19 @@ class Executor(Engine):
             if self.paths_top > self.opt['max_paths']:
                 raise Undecided('%s: path budget of %d exceeded' % (contract.name, self.opt['max_paths']))
         self.covers.append((contract.name, 'paths', self.paths_top))
+        # cover: some path reaches the function's exit with a satisfiable path condition (a contradictory assumption taken on the
+        # way -- a callee contract, a definition, a loop invariant -- would make every obligation of the function hold vacuously)
+        verdict = 'no-exit-path' if not self.finished_pcs else 'unsat'
+        for pcs in self.finished_pcs[:64]:
+            s = z3.Solver()
+            s.set('timeout', 4000)
+            for p in pcs:
+                s.add(p)
+            r = s.check()
+            if r != z3.unsat:
+                verdict = str(r)
+                break
+        self.covers.append((contract.name, 'exit-reachable', verdict))
         if contract.logic:
             for o in self.obligations[first_ob:]:
                 o.info['logic'] = contract.logic
@@ -1630,11 +1670,13 @@ class Executor(Engine):
 
     # ---- function exit ---------------------------------------------------------------
     def _finish(self, st, contract, ctx, rv, ins):
+        self.finished_pcs.append(list(st.pc))
         new = MemView(self, st.bytes, st.mem, dict(st.typed))
         c2 = Ctx(self, ctx.fn, ctx.args, ctx.old, new=new, result=rv, state=st)
         c2.fn_params = ctx.fn_params
         c2.ghost = st.ghost
         c2.log = st.log
+        c2.own = True
         posts = contract.ensures(c2)
         fnm = short_fn(contract.name)
         if contract.self_defs is not None:
@@ -1694,7 +1736,7 @@ class Executor(Engine):
         c = self.contracts.get(dem)
         if c is not None and c.model is not None:
             return self._apply_model(st, ins, c, args, f2)
-        if c is not None and not c.transparent:
+        if c is not None and not c.transparent and not (c.inline_in_callers and f2 is not None and not f2.unsupported):
             return self._apply_contract(st, ins, c, args, f2, dem)
         if f2 is None:
             raise OutOfReach('call to external function without contract: %s' % dem)
@@ -1740,7 +1782,14 @@ class Executor(Engine):
         cx2.fn_params = cx.fn_params
         cx2.ghost = st.ghost
         cx2.log = st.log
-        for label, e in c.ensures(cx2):
+        cx2.touched.clear()
+        posts = c.ensures(cx2)
+        if cx2.touched - set(c.call_site_reads):
+            # a postcondition about the callee's own ghost stream / call history has no meaning in the caller's history
+            self.stats.setdefault('history_posts_at_call_sites', []).append((dem, fr.fn.demangled, sorted(cx2.touched)))
+            raise OutOfReach('%s: postcondition reads the %s of its own call and cannot be applied inside %s (inline it or restate it over ghost functions)' % (
+                short_fn(dem), '/'.join(sorted(cx2.touched)), short_fn(fr.fn.demangled)))
+        for label, e in posts:
             if label in c.private:
                 continue
             st.pc.append(simp(e))
